@@ -293,8 +293,14 @@ pub fn judge(layout: &Layout, x: &Exec) -> (Option<Discrepancy>, Stats) {
   let mut mref = Mapper::for_layout(layout);
   let mut tablet = false;
   let mut timer: Option<(Vec<KeyCode>, u64, u64)> = None; // keys, due_us, interval_us
+  // keys held on the virtual keyboard: fold of what was actually written / of what the reference expects to be written
   let mut held: Vec<KeyCode> = vec![];
-  let mut expect: Option<Expect> = None;
+  let mut held_exp: Vec<KeyCode> = vec![];
+  // writes the loop owes, in the order it read the events that cause them; they must be discharged in this order and
+  // before the loop goes back to waiting (the statements do not require each one before the very next read)
+  let mut owed: VecDeque<Expect> = VecDeque::new();
+  // a chord is owed as the immediate reaction to the time-out
+  let mut chord: Option<Vec<Event>> = None;
   let mut last_poll_timed_out = false;
   let mut reads_this_wakeup = 0;
   // physical key state as the loop has read it since the last fresh start (decides which events are key *changes*)
@@ -304,50 +310,64 @@ pub fn judge(layout: &Layout, x: &Exec) -> (Option<Discrepancy>, Stats) {
   let mut seen_tablet = false;
   let absorbable: Vec<KeyCode> = layout.mappings.iter().flat_map(|m| m.absorbing.iter().cloned()).collect();
   let d = |prop, clause, detail: String, at| Some(Discrepancy { prop, also: None, clause, detail, at_call: at });
+  let step_prop = |seen_tablet: bool| if seen_tablet { "C12" } else { "C10" };
   for (i, c) in x.log.iter().enumerate() {
-    if st.ended { return (d("C10", "driver-call-after-end-of-device", format!("{:?} after the device reported it is gone", c), i), st); }
-    // an owed write must be the very next driver call
-    if let Some(e) = expect.take() {
-      match (e, c) {
-        (Expect::Step(exp), Call::Send { evs, .. }) => { if *evs != exp { return (d(if seen_tablet { "C12" } else { "C10" }, if seen_tablet { "not-a-fresh-start-after-tablet-mode" } else { "wrong-step-output-written" }, format!("written {} expected {} output {}", ev_str(evs), if seen_tablet { "a fresh mapper's" } else { "the mapper's" }, ev_str(&exp)), i), st); } fold(&mut held, evs); st.steps_sent += 1; last_poll_timed_out = false; continue; }
-        (Expect::Step(exp), other) => { if matches!(other, Call::Failed { .. }) { break; } return (d(if seen_tablet { "C12" } else { "C10" }, if seen_tablet { "not-a-fresh-start-after-tablet-mode" } else { "step-output-not-written-at-once" }, format!("{} output {} was not written before {:?}", if seen_tablet { "a fresh mapper's" } else { "the mapper's" }, ev_str(&exp), other), i), st); }
-        (Expect::Chord(exp), Call::Send { evs, .. }) => {
+    if matches!(c, Call::Failed { .. }) { break; }
+    // a due chord must be the very next driver call after the time-out
+    if let Some(exp) = chord.take() {
+      match c {
+        Call::Send { evs, .. } => {
           if *evs != exp { return (d("C11", "wrong-chord-payload", format!("chord written {} expected {} (keys held on the virtual keyboard: {:?})", ev_str(evs), ev_str(&exp), held), i), st); }
           let before = held.clone(); fold(&mut held, evs);
           if held != before { return (d("C11", "chord-not-transient", format!("chord {} changed the held set from {:?} to {:?}", ev_str(evs), before, held), i), st); }
           st.chords += 1; last_poll_timed_out = false; continue;
         }
-        (Expect::Chord(exp), other) => {
-          if matches!(other, Call::Failed { .. }) { break; }
+        other => {
           if !exp.is_empty() { return (d("C11", "due-chord-not-written", format!("time-out at the due time was not answered by the chord {}; next call {:?}", ev_str(&exp), other), i), st); }
           // an empty chord (all its keys already held) may be skipped: fall through to handle `other`
         }
-        (Expect::Reset, Call::Send { evs, .. }) => {
-          fold(&mut held, evs);
-          if !held.is_empty() { return (d("C12", "reset-leaves-keys-held", format!("reset batch {} leaves {:?} held", ev_str(evs), held), i), st); }
-          if evs.iter().any(|e| matches!(e, Pressed(_))) { return (d("C12", "reset-presses-keys", format!("reset batch {} presses keys", ev_str(evs)), i), st); }
-          st.resets_sent += 1; last_poll_timed_out = false; continue;
-        }
-        (Expect::Reset, other) => { if matches!(other, Call::Failed { .. }) { break; } return (d("C12", "held-keys-not-released-at-once", format!("{:?} held at the tablet-mode switch and not released before {:?}", held, other), i), st); }
       }
     }
     match c {
       Call::Register => {}
       Call::Failed { .. } => { break; }
       Call::Send { evs, .. } => {
-        if tablet { return (d("C12", "write-during-tablet-mode", format!("{} written while in tablet mode", ev_str(evs)), i), st); }
-        if last_poll_timed_out {
-          // "no repeat chord is written at any other time" (C11); when the timer had been cancelled by a tablet-mode change it is
-          // equally a failure to "resume as from a fresh start" (C12): the discrepancy belongs to both statements
-          let mut dd = d("C11", "chord-at-wrong-time", format!("{} written after a time-out although no chord was due (timer {:?}{})", ev_str(evs), timer.as_ref().map(|t| (t.1, t.2)), if timer_cancelled_by_tablet { ", cancelled by a tablet-mode change" } else { "" }), i);
-          if timer_cancelled_by_tablet { if let Some(x) = dd.as_mut() { x.also = Some("C12"); } }
-          return (dd, st);
+        if st.ended { return (d("C10", "write-after-end-of-device", format!("{} written after the device reported it is gone", ev_str(evs)), i), st); }
+        match owed.pop_front() {
+          Some(Expect::Step(exp)) => {
+            if *evs != exp { return (d(step_prop(seen_tablet), if seen_tablet { "not-a-fresh-start-after-tablet-mode" } else { "wrong-step-output-written" }, format!("written {} expected {} output {}", ev_str(evs), if seen_tablet { "a fresh mapper's" } else { "the mapper's" }, ev_str(&exp)), i), st); }
+            fold(&mut held, evs); st.steps_sent += 1; last_poll_timed_out = false;
+          }
+          Some(Expect::Reset) => {
+            fold(&mut held, evs);
+            if !held.is_empty() { return (d("C12", "reset-leaves-keys-held", format!("reset batch {} leaves {:?} held", ev_str(evs), held), i), st); }
+            if evs.iter().any(|e| matches!(e, Pressed(_))) { return (d("C12", "reset-presses-keys", format!("reset batch {} presses keys", ev_str(evs)), i), st); }
+            st.resets_sent += 1; last_poll_timed_out = false;
+          }
+          Some(Expect::Chord(_)) => unreachable!(),
+          None => {
+            if tablet { return (d("C12", "write-during-tablet-mode", format!("{} written while in tablet mode", ev_str(evs)), i), st); }
+            if last_poll_timed_out {
+              // "no repeat chord is written at any other time" (C11); when the timer had been cancelled by a tablet-mode change it is
+              // equally a failure to "resume as from a fresh start" (C12): the discrepancy belongs to both statements
+              let mut dd = d("C11", "chord-at-wrong-time", format!("{} written after a time-out although no chord was due (timer {:?}{})", ev_str(evs), timer.as_ref().map(|t| (t.1, t.2)), if timer_cancelled_by_tablet { ", cancelled by a tablet-mode change" } else { "" }), i);
+              if timer_cancelled_by_tablet { if let Some(x) = dd.as_mut() { x.also = Some("C12"); } }
+              return (dd, st);
+            }
+            return (d(step_prop(seen_tablet), if seen_tablet { "not-a-fresh-start-after-tablet-mode" } else { "unexpected-write" }, format!("{} written although {} produced no output to write", ev_str(evs), if seen_tablet { "a mapper started afresh at the last tablet-mode change" } else { "the mapper" }), i), st);
+          }
         }
-        return (d(if seen_tablet { "C12" } else { "C10" }, if seen_tablet { "not-a-fresh-start-after-tablet-mode" } else { "unexpected-write" }, format!("{} written although {} produced no output to write", ev_str(evs), if seen_tablet { "a mapper started afresh at the last tablet-mode change" } else { "the mapper" }), i), st);
       }
       Call::Poll { timeout_us, at_us, ret, after_us, unread_k, unread_t, label } => {
+        if st.ended { return (d("C10", "keeps-waiting-after-end-of-device", "poll called after the device reported it is gone".to_string(), i), st); }
         if reads_this_wakeup > 1 { st.multi_event_wakeups += 1; }
         reads_this_wakeup = 0;
+        // everything owed must have been written before the loop goes back to waiting
+        match owed.front() {
+          Some(Expect::Step(exp)) => return (d(step_prop(seen_tablet), if seen_tablet { "not-a-fresh-start-after-tablet-mode" } else { "waits-with-mapper-output-unwritten" }, format!("poll called at {}us while the output {} of an event already read is unwritten", at_us, ev_str(exp)), i), st),
+          Some(Expect::Reset) => return (d("C12", "held-keys-not-released-at-once", format!("{:?} held at the tablet-mode switch and not released before the loop went back to waiting", held), i), st),
+          _ => {}
+        }
         if *unread_k { return (d("C10", "waits-while-notified-events-unread", format!("poll called at {}us while keyboard events already signalled are unread", at_us), i), st); }
         if *unread_t { return (d("C12", "waits-while-tablet-events-unread", format!("poll called at {}us while tablet events already signalled are unread", at_us), i), st); }
         last_poll_timed_out = *ret == PollRet::TimedOut;
@@ -362,19 +382,27 @@ pub fn judge(layout: &Layout, x: &Exec) -> (Option<Discrepancy>, Stats) {
           if *ret == PollRet::TimedOut && *after_us >= due {
             if *after_us > due { st.late_ticks += 1; }
             if keys.iter().any(|k| held.contains(k)) { st.chords_with_held_key += 1; }
-            expect = Some(Expect::Chord(chord_for(&keys, &held)));
+            chord = Some(chord_for(&keys, &held));
             timer = Some((keys, due + interval, interval));
           }
         }
         let _ = label;
       }
       Call::NextK { at_us, ev, end } => {
-        if *end { st.ended = true; continue; }
+        if *end {
+          // nothing read before the device went away may be left unwritten, and nothing is written afterwards
+          match owed.front() {
+            Some(Expect::Step(exp)) => return (d(step_prop(seen_tablet), "output-unwritten-at-end-of-device", format!("the output {} of an event read before the device went away was never written", ev_str(exp)), i), st),
+            Some(Expect::Reset) => return (d("C12", "held-keys-not-released-at-once", "reset batch unwritten when the device went away".to_string(), i), st),
+            _ => {}
+          }
+          st.ended = true; continue;
+        }
         if let Some(ev) = ev {
           reads_this_wakeup += 1;
           if tablet { st.tablet_reads_skipped += 1; continue; }
           let r = mref.step(ev.clone());
-          if !r.events.is_empty() { expect = Some(Expect::Step(r.events.clone())); }
+          if !r.events.is_empty() { fold(&mut held_exp, &r.events); owed.push_back(Expect::Step(r.events.clone())); }
           // is this event a key change?  decided from the physical history, not from the mapper's answer
           // (for a key some mapping can absorb the mapper's own view is the only one available)
           let (k, press) = match ev { Pressed(k) => (*k, true), Released(k) => (*k, false) };
@@ -389,7 +417,14 @@ pub fn judge(layout: &Layout, x: &Exec) -> (Option<Discrepancy>, Stats) {
         }
       }
       Call::NextT { ev, end, .. } => {
-        if *end { st.ended = true; continue; }
+        if *end {
+          match owed.front() {
+            Some(Expect::Step(exp)) => return (d(step_prop(seen_tablet), "output-unwritten-at-end-of-device", format!("the output {} of an event read before the device went away was never written", ev_str(exp)), i), st),
+            Some(Expect::Reset) => return (d("C12", "held-keys-not-released-at-once", "reset batch unwritten when the device went away".to_string(), i), st),
+            _ => {}
+          }
+          st.ended = true; continue;
+        }
         if let Some(b) = ev {
           tablet = *b;
           seen_tablet = true;
@@ -397,20 +432,19 @@ pub fn judge(layout: &Layout, x: &Exec) -> (Option<Discrepancy>, Stats) {
           timer = None;
           phys.clear();
           mref = Mapper::for_layout(layout); // "resumes as from a fresh start"
-          if !held.is_empty() { expect = Some(Expect::Reset); }
+          if !held_exp.is_empty() { held_exp.clear(); owed.push_back(Expect::Reset); }
         }
       }
     }
   }
   let failed = x.log.iter().any(|c| matches!(c, Call::Failed { .. }));
   if !failed {
-    if let Some(e) = expect {
-      let last = x.log.len();
-      match e {
-        Expect::Step(exp) => return (d("C10", "step-output-not-written-at-once", format!("mapper output {} never written", ev_str(&exp)), last), st),
-        Expect::Chord(exp) => { if !exp.is_empty() { return (d("C11", "due-chord-not-written", format!("chord {} never written", ev_str(&exp)), last), st); } }
-        Expect::Reset => return (d("C12", "held-keys-not-released-at-once", "reset batch never written".to_string(), last), st),
-      }
+    let last = x.log.len();
+    if let Some(exp) = chord { if !exp.is_empty() { return (d("C11", "due-chord-not-written", format!("chord {} never written", ev_str(&exp)), last), st); } }
+    match owed.front() {
+      Some(Expect::Step(exp)) => return (d(step_prop(seen_tablet), "step-output-never-written", format!("mapper output {} never written", ev_str(exp)), last), st),
+      Some(Expect::Reset) => return (d("C12", "held-keys-not-released-at-once", "reset batch never written".to_string(), last), st),
+      _ => {}
     }
     if x.horizon { return (d("C10", "does-not-stop", "the loop keeps calling the driver after everything was delivered".to_string(), x.log.len()), st); }
     match (&x.result, st.ended) {
